@@ -19,7 +19,24 @@ def gen(rng, depth):
     if depth <= 0 or rng.random() < 0.3:
         w = word()
         return w + ' ', w
-    kind = rng.choice(['true', 'false', 'num', 'odd', 'case', 'case', 'seq'])
+    kind = rng.choice(['true', 'false', 'num', 'odd', 'case', 'case', 'seq', 'dim', 'x', 'defined', 'switch', 'macronum', 'wrap', 'effect'])
+    if kind == 'wrap':
+        # the conditional inside a group, a macro body or a macro argument
+        inner = gen(rng, depth - 1)
+        how = rng.choice(['group', 'body', 'arg'])
+        if how == 'group':
+            return '{' + inner[0] + '}', inner[1]
+        if how == 'arg':
+            return '\\textbf{' + inner[0] + '}', inner[1]
+        _n[0] += 1
+        nm = '\\bodym' + ''.join(chr(97 + int(c)) for c in str(_n[0]))
+        return '\\def%s{%s}%s ' % (nm, inner[0], nm), inner[1]
+    if kind == 'effect':
+        # a definition in each branch: only the processed branch may take effect
+        val = rng.random() < 0.5
+        wa, wb, w0 = word(), word(), word()
+        src = '\\gdef\\mk{%s}%s \\gdef\\mk{%s}\\else \\gdef\\mk{%s}\\fi \\mk ' % (w0, '\\iftrue' if val else '\\iffalse', wa, wb)
+        return src, (wa if val else wb)
     if kind == 'seq':
         a, b = gen(rng, depth - 1), gen(rng, depth - 1)
         return a[0] + b[0], a[1] + b[1]
@@ -34,6 +51,24 @@ def gen(rng, depth):
         return src, exp
     then, els = gen(rng, depth - 1), gen(rng, depth - 1)
     has_else = rng.random() < 0.6
+    if kind in ('dim', 'x', 'defined', 'switch', 'macronum'):
+        if kind == 'dim':
+            a, b, rel = rng.choice(DIMS), rng.choice(DIMS), rng.choice('<>=')
+            test, val = '\\ifdim %s%s%s\\relax ' % (a[0], rel, b[0]), {'<': a[1] < b[1], '>': a[1] > b[1], '=': a[1] == b[1]}[rel]
+        elif kind == 'x':
+            a, b = rng.choice(XTOKS), rng.choice(XTOKS)
+            test, val = '\\ifx%s%s ' % (a[0], b[0]), a[1] == b[1]
+        elif kind == 'defined':
+            a = rng.choice([('\\xa', True), ('\\xc', True), ('\\nosuchmacro', False), ('\\relax', True)])
+            test, val = '\\ifdefined%s ' % a[0], a[1]
+        elif kind == 'switch':
+            val = rng.random() < 0.5
+            test = ('\\swtrue ' if val else '\\swfalse ') + '\\ifsw '
+        else:
+            a, b, rel = rng.choice([('\\nthree', 3), ('\\nseven', 7)]), rng.randrange(0, 9), rng.choice('<>=')
+            test, val = '\\ifnum%s%s%d\\relax ' % (a[0], rel, b), {'<': a[1] < b, '>': a[1] > b, '=': a[1] == b}[rel]
+        src = test + then[0] + ('\\else ' + els[0] if has_else else '') + '\\fi '
+        return src, (then[1] if val else (els[1] if has_else else ''))
     if kind == 'true':
         test, val = '\\iftrue ', True
     elif kind == 'false':
@@ -48,9 +83,15 @@ def gen(rng, depth):
     return src, (then[1] if val else (els[1] if has_else else ''))
 
 
+DIMS = [('1pt', 65536), ('2pt', 131072), ('1in', 72.27 * 65536), ('-1pt', -65536), ('10pt', 655360), ('1.5pt', 98304), ('0pt', 0)]
+# \\ifx compares meanings: macros with the same parameter text and body are equal, so is a macro and its \\let alias; characters by code and category
+XTOKS = [('\\xa', 'M:x'), ('\\xb', 'M:x'), ('\\xc', 'M:y'), ('\\xd', 'M:x'), (' a', 'C:a'), (' b', 'C:b'), ('\\relax', 'P:relax')]
+PREAMBLE = ('\\def\\xa{x}\\def\\xb{x}\\def\\xc{y}\\let\\xd\\xa \\newif\\ifsw \\def\\nthree{3}\\def\\nseven{7}')
+
+
 def run(src):
     t = TeX()
-    t.input('\\documentclass{article}\\begin{document}' + src + '\\end{document}')
+    t.input('\\documentclass{article}\\begin{document}' + PREAMBLE + src + '\\end{document}')
     return ''.join(t.parse().textContent.split())
 
 
@@ -105,5 +146,5 @@ CONTRACTS = {
 }
 GROUND = []
 BOUNDED = [('bounded/ifcontent', "the visible text of nested conditionals equals TeX's selection (out-of-range \\ifcase selectors, nesting inside taken and skipped branches)",
-            'all \\ifcase shapes with 1-3 branches x selectors -2..5 x else/no else x 4 embeddings (exhaustive); random nestings to depth 4', bounded_if)]
+            'all \\ifcase shapes with 1-3 branches x selectors -2..5 x else/no else x 4 embeddings (exhaustive); random nestings to depth 4 over iftrue / iffalse / ifnum / ifdim / ifodd / ifcase / ifx / ifdefined / newif switches, in groups, macro bodies and arguments, with side effects in the branches', bounded_if)]
 CLASSES = {}
